@@ -557,10 +557,10 @@ PROPS['C06'] = dict(
         dict(name='queue-serial-asan', bin='xthread', variant='asan', mode='serial',
              quick=4000, thorough=200000),
         dict(name='queue-free-tsan', bin='xthread', variant='tsan', mode='free',
-             args=['--max-producers', '1'], quick=400, thorough=12000, timeout=3000,
+             args=['--max-producers', '1', '--case-cpu-budget', '300'], quick=400, thorough=12000, timeout=3000,
              require=['c06.deliveries_checked']),
         dict(name='queue-free-tsan-multi', bin='xthread', variant='tsan', mode='free',
-             quick=48, thorough=1600, timeout=3000),
+             args=['--case-cpu-budget', '300'], quick=48, thorough=1600, timeout=3000),
         dict(name='worker-serial', bin='xworker', variant='plain', mode='serial',
              quick=30000, thorough=1500000,
              require=['c06.remote_entries_checked', 'c06.worker_deliveries_checked',
@@ -568,7 +568,7 @@ PROPS['C06'] = dict(
         dict(name='worker-serial-asan', bin='xworker', variant='asan', mode='serial',
              quick=12000, thorough=400000),
         dict(name='worker-free-tsan', bin='xworker', variant='tsan', mode='free',
-             quick=400, thorough=12000, timeout=3000,
+             args=['--case-cpu-budget', '300'], quick=400, thorough=12000, timeout=3000,
              require=['c06.worker_deliveries_checked']),
     ],
 )
